@@ -51,6 +51,7 @@ type UnitResult struct {
 	HasSpec  bool         `json:"has_contract"`
 	gen      *Gen
 	frame    *Frame
+	lemmaVals map[string]*SVal
 }
 
 type Options struct {
@@ -209,6 +210,10 @@ func (p *Program) buildLemmaUnit(l *Lemma) (ur *UnitResult) {
 		g.assume("true", g.refFacts(st, v))
 		g.addNamed(v)
 		env.vars[prm.Name] = v
+		if ur.lemmaVals == nil {
+			ur.lemmaVals = map[string]*SVal{}
+		}
+		ur.lemmaVals[prm.Name] = v
 	}
 	env.asAssume("true")
 	for _, rq := range l.Requires {
@@ -359,7 +364,7 @@ func (ur *UnitResult) discharge(opt Options) {
 	var batch, single []*OblResult
 	for _, r := range pending {
 		switch r.Kind {
-		case "ensures", "lemma", "invariant-entry", "invariant-preserved", "precond", "loop-exit":
+		case "ensures", "lemma", "invariant-entry", "invariant-preserved", "precond", "loop-exit", "callsite":
 			single = append(single, r)
 		default:
 			batch = append(batch, r)
